@@ -105,6 +105,9 @@ def generate(r, tier):
     }
     atickets = [gen.gen_ticket(r, "a.%d" % i, units, profile) for i in range(r.randint(2, 5))]
     noise = [gen.gen_ticket(r, "z.%d" % i, units, dict(profile, p_mutate=0.0, p_fault=0.0)) for i in range(r.randint(0, 3))]
+    for td_ in atickets:
+        if r.random() < 0.08:
+            td_.setdefault("body", {})["returns"] = "handle"  # the callable returns an awaitable as its value
     off = {u_["name"] for u_ in aworld.get("funcs", ()) if u_.get("offload")}
     if off:
         # the plain function under the async layer cannot await: its body makes no nested calls
